@@ -10,6 +10,7 @@
 # position k, cancellation of a live iterator (close/throw) at any step.
 #
 from sim.core import (
+    sut_len,
     bounded,
     dec_token,
     ABSENT,
@@ -351,9 +352,13 @@ class Run(object):
         self.expect("lmpv", op, got, expected, {"key": list(key), "form": form})
 
     def q_len(self, op):
-        self.expect("len", op, len(self.trie), len(self.model))
+        self.expect("len", op, sut_len(self.trie), len(self.model))
         # a container is true exactly when it holds something
-        self.expect("truthiness", op, bool(self.trie), bool(self.model))
+        try:
+            truth = bool(self.trie)
+        except (TypeError, ValueError, OverflowError) as exc:
+            raise Violation("truthiness", op, "%s: %s" % (type(exc).__name__, exc), repr(bool(self.model)))
+        self.expect("truthiness", op, truth, bool(self.model))
 
     def judge_iteration(self, kind, got, op):
         # got: list collected from a traversal with no mutation in between
